@@ -68,7 +68,9 @@ func TestC07InmemRapid(t *testing.T) {
 	st := vstat.For("C07")
 	rapid.Check(t, func(rt *rapid.T) {
 		c := genWCase(rt, vstat.Pick(25, 40), true)
+		stop := st.Watch("TestC07InmemRapid", "inmem", c, 40*time.Second)
 		info, v := RunC07Inmem(t, c)
+		stop()
 		st.Report(rt, "TestC07InmemRapid", c, v)
 		recordC07(c, info, "inmem-bubble")
 	})
